@@ -59,3 +59,6 @@ func (e *vEnv) VerifSucceeded() bool {
 
 // VerifSetLazy switches between scripted (all fine) and lazily chosen behaviours.
 func (e *vEnv) VerifSetLazy(on bool) { e.lazy = on }
+
+// VerifFailDeploy: from now on deploying the plugin fails (the schema probe of preparation has passed).
+func (e *vEnv) VerifFailDeploy() { e.lazy = false; e.deployMode = 1 }
